@@ -38,6 +38,9 @@ type Op struct {
 	Val  int    `json:"val,omitempty"`  // index into valuePool
 	Vals []int  `json:"vals,omitempty"` // replace: per option value index (-1 = absent)
 	Rel  int    `json:"rel,omitempty"`  // 0 stable 1 beta 2 experimental 3 invalid 4 nil
+	// NoSave (set, sequential mode): the configuration file cannot be written while this operation runs (its path is
+	// a directory). Whether the value is in force afterwards is open; every getter and the user layer must agree.
+	NoSave bool `json:"no_save,omitempty"`
 }
 
 // Plan is one configuration scenario.
@@ -179,6 +182,12 @@ func (H) Generate(prop string, rng *rand.Rand, tier string) any {
 	if rng.IntN(2) == 0 {
 		p.Readers = 1 + rng.IntN(6)
 		p.Reads = 2 + rng.IntN(10)
+	} else {
+		for i := range p.Ops {
+			if p.Ops[i].Kind == "set" && rng.IntN(5) == 0 {
+				p.Ops[i].NoSave = true
+			}
+		}
 	}
 	if rng.IntN(6) == 0 {
 		// tight scenario: few plain options, only sets that succeed, readers and the writer never sleep, so every
@@ -566,8 +575,35 @@ func (s *state) apply(op Op) (class, witness, detail string) {
 		v := valuePool[op.Val]
 		o := p.Opts[op.Opt]
 		var err error
-		if op.Kind == "set" {
+		if op.Kind == "set" && op.NoSave && p.Readers == 0 {
+			_ = os.MkdirAll(cfgFile+".dir", 0o755)
+			config.VerifSimSetConfigPath(cfgFile + ".dir")
 			err = config.SetConfigOption(optKey(op.Opt), v)
+			config.VerifSimSetConfigPath(cfgFile)
+			s.rc.Fault("config-file-not-writable")
+			if mv, ok := modelValidate(o, v); ok || v == nil {
+				// a value that passes validation and a file that cannot be written: the value is in force or it is not,
+				// but the user layer decides that for every getter alike
+				if opt, gerr := config.GetOption(optKey(op.Opt)); gerr == nil {
+					uv := opt.UserValue()
+					switch {
+					case uv == nil && !opt.IsSetByUser():
+						m.user[op.Opt] = mval{}
+					default:
+						if umv, uok := modelValidate(OptSpec{Type: o.Type}, uv); uok {
+							m.user[op.Opt] = umv
+						}
+					}
+					_ = mv
+				}
+				s.model = m
+				return "", "", ""
+			}
+		}
+		if op.Kind == "set" && !(op.NoSave && p.Readers == 0) {
+			err = config.SetConfigOption(optKey(op.Opt), v)
+		} else if op.Kind == "set" {
+			// (validation failure with an unwritable file: handled like any rejected value below)
 		} else {
 			err = config.SetDefaultConfigOption(optKey(op.Opt), v)
 		}
